@@ -172,7 +172,10 @@ KrbCfgs == [tf : {"off"}, auth : {FALSE}, lh : {"allow"}, deny : {FALSE}, dd : {
             up : {[t |-> "pac", v |-> r] : r \in {"DIRECT", "empty", "PROXY_A", "HTTPS_B", "throws"}} \cup {[t |-> "static", v |-> "HTTP_A"]}]
 KrbAll == KrbCfgs \X [kind : RouteKinds, host : {"origin"}, cred : {"none"}, via : {"none"}, pos : {"first"}]
 
-ViaCfgs == [tf : {"off"}, auth : {FALSE}, lh : {"allow"}, deny : {FALSE}, dd : {FALSE}, up : {NoUp, [t |-> "static", v |-> "HTTP_A"]}, ct : {"none"}]
+\* name: the instance's configured name - an ordinary word, or one with blanks, parentheses and a comma in it ("fwd (eu, west)"):
+\* whatever the name, the element the instance emits is one it recognises when it comes back
+ViaCfgs == [tf : {"off"}, auth : {FALSE}, lh : {"allow"}, deny : {FALSE}, dd : {FALSE}, up : {NoUp, [t |-> "static", v |-> "HTTP_A"]}, ct : {"none"},
+            name : {"plain", "odd"}]
 ViaReqs == [kind : {"GET", "GET10", "POST", "CONNECT", "MITMGET"}, host : {"origin"}, cred : {"none"}, via : ViaClasses, pos : {"first", "afterOK"}]
 
 (* ---------- credentials (C06) ---------- *)
